@@ -7,9 +7,9 @@ func init() {
 		explain: "(1) rankings: the real HTMLReport Begin/AssetBegin/Write/AssetEnd/End run with arbitrary (symbolic) final outcomes through the real slices.SortFunc and comparator; the solver decides whether the entry recorded as best can be below another result of its asset and whether the overall list can be out of order; (2) protocol and completeness: Backtest.Run over an in-memory repository with symbolic dates, a symbolic 'now', stub strategies replaying symbolic action words and a recording report, one worker: notification order, one Write per (asset, strategy), written actions/outcomes equal to a direct ComputeWithOutcome on the look-back window; (3) two workers with both bundled reports: results equal the one-worker results on the explored job assignment and the certificate over memory cells reports data races",
 		bounds: func(t string) string {
 			if t == "thorough" {
-				return "rankings: <= 3 assets x <= 4 results; protocol: <= 3 assets, <= 3 snapshots, <= 2 strategies; workers 1..2 (3 in one configuration)"
+				return "rankings: <= 3 assets x <= 4 results; protocol: <= 3 assets, <= 3 snapshots, <= 2 strategies; workers 1..2 (3 in one configuration); worker / asset shapes (1,3) (2,4) (3,2) (1,4) (5,4) (4,3) (3,5) with one strategy and one snapshot"
 			}
-			return "rankings: <= 3 assets x <= 3 results; protocol: <= 2 assets, <= 3 snapshots, <= 2 strategies; workers 1..2"
+			return "rankings: <= 3 assets x <= 3 results; protocol: <= 2 assets, <= 3 snapshots, <= 2 strategies; workers 1..2; asset / worker shapes (1 asset, 3 workers), (2,4), (3,2) with one strategy and one snapshot"
 		},
 		outside:     "HTML rendering and file output (text/template, os: stubbed symbolically, real in the native replay), more than two workers beyond one configuration, job assignments other than those produced by the executor's three scheduling policies for Workers >= 2 (the certificate is not issued there), strategy reports written per strategy (WriteStrategyReports=false), cmd/indicator-backtest",
 		assumptions: append([]string{"day-number model of time.Time with a symbolic 'now'", realModeNote}, commonAssumptions...),
@@ -58,6 +58,18 @@ func init() {
 						}
 					}
 				}
+			}
+			// more workers than assets, and asset / worker counts that do not divide
+			// evenly (work distribution arithmetic): data report, one strategy
+			type aw struct{ na, w int }
+			shapes := []aw{{1, 3}, {2, 4}, {3, 2}}
+			if tier == "thorough" {
+				shapes = append(shapes, aw{1, 4}, aw{5, 4}, aw{4, 3}, aw{3, 5})
+			}
+			for _, x := range shapes {
+				c := cs("H_C13_Workers", x.na, 1, 1, x.w, 0)
+				c.TrackMem = true
+				out = append(out, c)
 			}
 			if tier == "thorough" {
 				c := cs("H_C13_Workers", 3, 2, 2, 3, 0)
